@@ -170,7 +170,7 @@ let do_tb toks now =
     if occ <> "-" then
       List.iter (fun r -> match split '-' r with
         | [a; b] -> for i = int_of_string a to int_of_string b do
-            ignore (do_step (RESTORE (n_of_int i, ((ns_of_ints [2;0;0;0;(i lsr 8) land 255; i land 255], n_of_int 3000), N0))))
+            ignore (do_step (RESTORE (n_of_int i, ((ns_of_ints [2;0;0;0;(i lsr 8) land 255; i land 255], n_of_int 3000), N0), [])))
           done
         | _ -> ()) (split ',' occ);
     let nx = strip "next=" nx in
@@ -202,6 +202,7 @@ let do_tb toks now =
       | Some (OPads (sid, uid)) ->
         (match t with Some t -> nonbulk := (int_of_n uid, int_of_n sid, t) :: !nonbulk | None -> ());
         Printf.sprintf "pads:%d:u%d" (int_of_n sid) (int_of_n uid)
+      | Some (OPend (sid, uid)) -> Printf.sprintf "pend:%d:u%d" (int_of_n sid) (int_of_n uid)
       | Some (OTerm u) -> Printf.sprintf "term:u%d" (int_of_n u)
       | Some (OReach u) -> Printf.sprintf "reach:u%d" (int_of_n u)
       | Some (ORestored u) -> Printf.sprintf "restored:u%d" (int_of_n u) in
@@ -210,16 +211,37 @@ let do_tb toks now =
       | ["I"; m; sv; cv] -> show (do_step (PADI (mk_tuple m sv cv))) None
       | ["R"; m; sv; cv; spec] -> let t = mk_tuple m sv cv in show (do_step (PADR (t, ns_of_ints (tags spec)))) (Some t)
       | ["T"; m; sv; cv; sid] -> show (do_step (PADT (mk_tuple m sv cv, n_of_int (int_of_string sid)))) None
+      | ["S"; m; sv; cv; sid; k] when String.length k > 5 && String.sub k 0 5 = "name:" ->
+        show (do_step (SETATTR (mk_tuple m sv cv, n_of_int (int_of_string sid),
+                                bytes_of_hex (String.sub k 5 (String.length k - 5))))) None
       | ["S"; m; sv; cv; sid; _] -> show (do_step (SESS (mk_tuple m sv cv, n_of_int (int_of_string sid)))) None
       | ["D"; sid] -> show (do_step (DEAD (n_of_int (int_of_string sid)))) None
       | ["W"; k] -> cur_now := now + int_of_string k; env := mk_env !cur_ttl !cur_now; "-"
       | ["L"; n] -> cur_ttl := int_of_string n; env := mk_env !cur_ttl !cur_now; "-"
-      | ["X"; sid; m; sv; cv] ->
+      | "X" :: sid :: m :: sv :: cv :: rest ->
         let t = mk_tuple m sv cv in
-        (match do_step (RESTORE (n_of_int (int_of_string sid), t)) with
+        let a = match rest with [u] -> bytes_of_hex u | _ -> [] in
+        (match do_step (RESTORE (n_of_int (int_of_string sid), t, a)) with
          | Some (ORestored u) -> nonbulk := (int_of_n u, int_of_string sid, t) :: !nonbulk;
            Printf.sprintf "restored:u%d" (int_of_n u)
          | o -> show o None)
+      | ["P"; n; sv] ->
+        let n = int_of_string n in
+        let uids = ref [] in
+        for i = 0 to n - 1 do
+          let mac = [10;0;0;0;(i lsr 8) land 255; i land 255] in
+          let t : tuple = ((ns_of_ints mac, n_of_int (int_of_string sv)), N0) in
+          let ck = List.map int_of_n (generate h (n_of_int now) t) in
+          match do_step (PBEGIN (t, ns_of_ints (tag 0x0104 ck))) with
+          | Some (OPend (_, u)) -> uids := u :: !uids
+          | _ -> ()
+        done;
+        let sids = ref [] in
+        List.iter (fun u -> match do_step (PCOMMIT u) with
+          | Some (OPads (sid, _)) -> sids := int_of_n sid :: !sids
+          | _ -> ()) (List.rev !uids);
+        if !dead then "INADMISSIBLE" else
+        "ovl:" ^ String.concat "+" (List.map string_of_int (List.sort compare !sids))
       | ["C"; n; sv] ->
         let n = int_of_string n in
         let sids = ref [] in
@@ -238,19 +260,25 @@ let do_tb toks now =
     let flags = List.map (fun (u, sid, t) ->
       let a = match lookup_sid !s (n_of_int sid) with Some x when int_of_n x.s_uid = u -> 1 | _ -> 0 in
       let b = match lookup_tup !s t with Some x when int_of_n x.s_uid = u -> 1 | _ -> 0 in
-      (u, sid, a, b)) nb in
+      let d = match lookup_uidx !s (n_of_int u) with Some x when int_of_n x.s_uid = u -> 1 | _ -> 0 in
+      let e = match get_attr !s (n_of_int u) with
+        | Some k -> (match lookup_attr !s k with Some x when int_of_n x.s_uid = u -> 1 | _ -> 0)
+        | None -> 0 in
+      (u, sid, a, b, d, e)) nb in
     let ns = int_of_n (size_sid !s) and nt = int_of_n (size_tup !s) in
-    let bs = ns - List.fold_left (fun acc (_, _, a, _) -> acc + a) 0 flags in
-    let bt = nt - List.fold_left (fun acc (_, _, _, b) -> acc + b) 0 flags in
+    let bs = ns - List.fold_left (fun acc (_, _, a, _, _, _) -> acc + a) 0 flags in
+    let bt = nt - List.fold_left (fun acc (_, _, _, b, _, _) -> acc + b) 0 flags in
     String.concat " " ([Printf.sprintf "now=%d" now] @ outs @ [";"; Printf.sprintf "n=%d/%d bulk=%d/%d" ns nt bs bt]
-                       @ List.map (fun (u, sid, a, b) -> Printf.sprintf "u%d:%d:%d%d" u sid a b) flags)
+                       @ List.map (fun (u, sid, a, b, d, e) -> Printf.sprintf "u%d:%d:%d%d%d%d" u sid a b d e) flags)
   | _ -> "badline"
 
 let () =
   let lines = read_lines Sys.argv.(1) in
   let impl = if Array.length Sys.argv > 2 && Sys.argv.(2) <> "-" then read_lines Sys.argv.(2) else [] in
   if Array.length Sys.argv > 3 then
-    variant := (match Sys.argv.(3) with "defective" -> defective | "def_iso" -> defIso | "def_sid" -> defSid | _ -> repaired);
+    variant := (match Sys.argv.(3) with
+      | "defective" -> defective | "def_iso" -> defIso | "def_sid" -> defSid
+      | "head" -> head | "head_reserve" -> headReserve | "head_guard" -> headGuard | _ -> repaired);
   let impl = Array.of_list impl in
   List.iteri (fun i line ->
     let il = if i < Array.length impl then impl.(i) else "" in
